@@ -12,1002 +12,944 @@ Definition show_fres (r : fres) : string :=
   end.
 Definition check (rs : list rune) : string := digest (show_fres (format_res rs)).
 Definition full (rs : list rune) : string := show_fres (format_res rs).
-Eval vm_compute in ("<<<M1351>>>" ++ check (runes_of_ascii "options { StringPrefixLenType
-    // c2
+Eval vm_compute in ("<<<M1372>>>" ++ check (runes_of_ascii "// top
+options // c0a
+  // c0b
+{ // c1
+FixedStringPadFromLeft // c2a
+  // c2b
 = // c3
-u64 // c4a
-  // c4b
-; // c5a
+true ; // c5a
   // c5b
-ArrayPrefixLenType // c6a
+FixedStringPadChar // c6a
   // c6b
+= // c7
+'0' // c8
+; // c9a
+  // c9b
+} // c10a
+  // c10b
+packet // c11
+Leg { // c13
+repeat InSym93 // c15a
+  // c15b
+{ // c16a
+  // c16b
+zchar[ // c17
+3 // c18
+] // c19a
+  // c19b
+Acct // c20
+, // c21
+string Side2 , // c24a
+  // c24b
+i32 // c25
+Flags ,
+    // c27
+f32 Note // c29a
+  // c29b
+,
+    // c30
+i32 // c31
+msgKind
+    // c32
+,
+    // c33
+} // c34a
+  // c34b
+, // c35
+f64
+    // c36
+Note // c37
+, // c38
+uint16
+    // c39
+Px // c40a
+  // c40b
+,
+    // c41
+} // c42
+packet Quote
+    // c44
+{
+    // c45
+zchar[ // c46a
+  // c46b
+2 // c47
+] // c48a
+  // c48b
+OrderId // c49a
+  // c49b
+, }
+    // c51
+packet // c52a
+  // c52b
+Ack // c53
+{ // c54a
+  // c54b
+repeat // c55a
+  // c55b
+string // c56
+lastPx
+    // c57
+,
+    // c58
+zchar[
+    // c59
+4 // c60a
+  // c60b
+]
+    // c61
+price , uint32 OrderId // c65
+, // c66a
+  // c66b
+Quote // c67
+, // c68a
+  // c68b
+int8
+    // c69
+Acct // c70a
+  // c70b
+, } packet
+    // c73
+Fill // c74
+{ // c75
+repeat
+    // c76
+Leg , // c78
+@rightPad // c79a
+  // c79b
+(
+    // c80
+'0' // c81
+) char[ // c83
+11
+    // c84
+] // c85
+Note , f64
+    // c88
+Px
+    // c89
+, // c90
+@rightPad
+    // c91
+(
+    // c92
+'\x00' // c93a
+  // c93b
+)
+    // c94
+char[ 5 ] Flags // c98a
+  // c98b
+,
+    // c99
+zchar[ // c100
+9 // c101
+] // c102a
+  // c102b
+x // c103
+, // c104a
+  // c104b
+string
+    // c105
+msgKind // c106a
+  // c106b
+,
+    // c107
+} // c108
+root packet // c110
+Order // c111
+{ Leg
+    // c113
+,
+    // c114
+repeat Ack // c116a
+  // c116b
+, @rightPad
+    // c118
+( // c119a
+  // c119b
+'\x00' ) char[
+    // c122
+3 ] // c124
+Side2
+    // c125
+, // c126
+repeat // c127a
+  // c127b
+char[ // c128a
+  // c128b
+1 // c129a
+  // c129b
+] seqNo // c131a
+  // c131b
+, // c132
+u16 // c133
+clOrdID // c134
+,
+    // c135
+match // c136a
+  // c136b
+clOrdID // c137
+as // c138a
+  // c138b
+Body // c139a
+  // c139b
+{ 198 // c141a
+  // c141b
+:
+    // c142
+Leg // c143a
+  // c143b
+, 23
+    // c145
+: // c146
+Quote
+    // c147
+, // c148a
+  // c148b
+13 // c149
+:
+    // c150
+Ack // c151
+, // c152a
+  // c152b
+159 // c153
+: // c154
+Fill // c155a
+  // c155b
+, // c156a
+  // c156b
+} , // c158a
+  // c158b
+u32 // c159
+venue // c160a
+  // c160b
+@calculatedFrom( ""CRC32"" // c162
+) // c163a
+  // c163b
+, } // c165a
+  // c165b
+")).
+Eval vm_compute in ("<<<M156>>>" ++ check (runes_of_ascii "packet
+A { @rightPad ( '0' ) repeat	i8i8
+    { zchar[ 007 ]
+    packetx,
+    metadata `" ++ [28040; 24687; 31867; 22411]%N ++ runes_of_ascii "` ,	repeat float64  T ,}, @tag(0)Z9_ { int
+@lengthOf( tag
+)`line1
+line2`
+, repeat i8i8 // packet A { u8 x, }
+{  zchar[  00 ]stringy
+,
+repeat f32a{ match i64_ //
+as
+    string_ {[ 255 , ""{,}"" , 0123456789 ]
+: x_y_z
+, """ ++ [233]%N ++ runes_of_ascii "t" ++ [233]%N ++ runes_of_ascii """ : A
+, ""`tick`"" : len ,} , } ,
+    //
+    repeat u8x {u16 Z9_
+@calculatedFrom(""" ++ [128512]%N ++ runes_of_ascii """ ) `line1
+line2` ,f32 matchKey
+    ,} ,// " ++ [27880; 37322]%N ++ runes_of_ascii "
+float64 u8x `
+`,
+    },//
+} , // `tick` ""quote"" 'q'
+a1	{ repeat
+    // trailing space 
+    zchar[ 007
+] Foo `two words`
+,f32a	@calculatedFrom( """ ++ [28040; 24687]%N ++ runes_of_ascii """// trailing space 
+) ,int64 i64_  @calculatedFrom( // trailing space 
+""`tick`"" ) , } ,
+    @lengthOf(
+    // c
+    Header )	f32
+stringy @calculatedFrom(
+""x y"" )`say ""hi""` , Foo , float64
+BodyLength@calculatedFrom( // " ++ [27880; 37322]%N ++ runes_of_ascii "
+""packet"") ,
+    uint32
+// packet A { u8 x, }
+//
+int
+//
+//x
+, } packet string_{ @tag( 4294967296
+) repeat u
+`two words` , repeat zchar[ 0 ]
+BodyLength
+, @tag( 255 )/// triple
+int `line1
+line2` ,	uint8x`it's`,@tag(
+65535 )
+int8
+    metadata
+`" ++ [233]%N ++ runes_of_ascii "` ,/// triple
+match
+options1
+//x
+// " ++ [128512]%N ++ runes_of_ascii " emoji
+as
+    float// packet A { u8 x, }
+{ 3: f32a , """ ++ [28040; 24687]%N ++ runes_of_ascii """
+    : charz
+,}
+,match uint8x	as
+string_ { ""CRC32"" //x
+:
+x
+, } , uint8	packetx`crlf
+line` ,
+@leftPad (
+)
+    zchar[
+0
+] Foo `say ""hi""`, }
+")).
+Eval vm_compute in ("<<<M359>>>" ++ check (runes_of_ascii "root	packet // @lengthOf(
+repeatCount {
+    @lengthOf(u8x
+) @calculatedFrom(""1"" ) @tag( 007 ) repeat zchar[
+42 ] Header
+    `" ++ [28040; 24687; 31867; 22411]%N ++ runes_of_ascii "` , match options1 as asx
+{ 255
+    // `tick` ""quote"" 'q'
+    :
+    roots , }, // a // b
+Header
+    @lengthOf(
+    // a // b
+    options1	) `` , Header //	t
+@lengthOf(
+    len )`{ , }`
+, o matchKey `u8 x,` ,} packet packetx {zchar[
+255
+]
+crc
+    , }
+    packet
+    Logon {
+    body { float { repeat Logon  trueish ,  } , } ,	@calculatedFrom(
+    // `tick` ""quote"" 'q'
+    ""`tick`"" ) repeat char[
+    0] f32a
+,match body
+    as
+    float {[65535
+, """ ++ [28040; 24687]%N ++ runes_of_ascii """
+    ] :
+calculatedFrom ,}
+, u32 float@calculatedFrom(
+    """ ++ [233]%N ++ runes_of_ascii "t" ++ [233]%N ++ runes_of_ascii """ // @lengthOf(
+)
+, string body @lengthOf( len
+    )`
+` //
+, u8x
+@calculatedFrom( ""a\""b"")
+    //	t
+    , //	t
+float64 options1@calculatedFrom(""" ++ [128512]%N ++ runes_of_ascii """ )`it's`
+    ,
+//x
+// trailing space 
+match crc as chars
+    {
+3
+: options1 // @lengthOf(
+, [ 10 ] :_x  [ ""{,}""
+] :options1
+,[ ""CRC32"", ""a\\""  ,
+""a\\"" , ""packet"", 7
+    // `tick` ""quote"" 'q'
+    ]
+:
+As
+    } , i16 msg_type , }")).
+Eval vm_compute in ("<<<M1873>>>" ++ check (runes_of_ascii "options {
+    matchKey = ""x y"";
+    MetaDataX = '0';
+}
+
+packet msg_type {
+    @rightPad(' ')
+    repeat u128 body,
+    match body as pack {
+        [""\" ++ [233]%N ++ runes_of_ascii """, ""1""] : BodyLength,
+        [
+            255, ""a	b"", ""a\\"", ""{,}"", 007,
+            007, 0123456789
+        ] : options1,
+    },
+    @leftPad()
+    @lengthOf(charz)
+    @tag(42)
+    o {
+        i32 msg_type @lengthOf(A) `doc`,
+        zchar[1] charz,// c
+        i8 packetx `{ , }`,
+        msg_type `crlf
+        line`,
+    },
+    @calculatedFrom(""\" ++ [233]%N ++ runes_of_ascii """)
+    Z9_ @calculatedFrom(""" ++ [128512]%N ++ runes_of_ascii """) `tab	here`,
+    repeat char[] Foo,
+    repeat zchar[0123456789] u128,
+}
+
+packet f32a {
+    f32a @lengthOf(matchKey),
+    @rightPad(' ')
+    @lengthOf(chars)
+    _x Foo ``,
+    match body as body {
+        [4294967296, ""packet"", 3, """ ++ [128512]%N ++ runes_of_ascii """, 0123456789] : T,
+        [""a\\""] : T,
+        ""\n"" : u8x,
+    },
+}//x
+
+root packet lengthOf {
+}")).
+Eval vm_compute in ("<<<M362>>>" ++ check (runes_of_ascii "MetaData len
+{i8 _x
+    //	t
+    `` , zchar[ 00 ] tag , roots
+u
+    // `tick` ""quote"" 'q'
+    ,uint16 repeatCount , msg_type tag , } packet x_y_z
+    {
+metadata { i8i8 chars
+,i64
+chars , }
+, repeat u16 asx
+// a // b
+// a // b
+,
+}	packet u8x  { @lengthOf( BodyLength	)	@leftPad(
+// a // b
+//
+)float
+    /// triple
+    `
+` ,
+@calculatedFrom( ""// no comment"" ) float32 // " ++ [128512]%N ++ runes_of_ascii " emoji
+chars`// not a comment` , uint32
+u128 , @tag( 0 )
+int16	tag , leftPad
+    msg_type , // trailing space 
+pack
+    `tab	here` ,
+@lengthOf(
+repeatCount
+// c
+// c
+)zchar[ 4294967296 ] len, i32 packetx`tab	here` , calculatedFrom ,metadata @calculatedFrom(
+""// no comment"" ) , } options { // trailing space 
+options1 = 42 ; i64_
+    // a // b
+    = char[] falsey=
+// packet A { u8 x, }
+//	t
+42 // a // b
+Packet =
+true
+;}
+")).
+Eval vm_compute in ("<<<M1949>>>" ++ check (runes_of_ascii "packet charz {
+    //	t
+    repeat i64_,
+    trueish {
+        repeat _x,
+        repeatCount,
+        repeat u16 matchKey `
+                `,
+        // " ++ [128512]%N ++ runes_of_ascii " emoji
+        // a // b
+        matchKey @calculatedFrom(""a\""b"") `it's`,
+    },
+    @tag(007)
+    @calculatedFrom(""a\\"")
+    @tag(3)
+    f32 f32a @lengthOf(asx) `crlf
+        line`,
+    repeat i8 string_,
+    @lengthOf(Logon)
+    @lengthOf(x_y_z)
+    @lengthOf(zchar)
+    repeat char[65535] Foo `" ++ [233]%N ++ runes_of_ascii "`,
+    @calculatedFrom(""abc"")
+    trueish @lengthOf(A),
+    char[0] float,
+    Packet @calculatedFrom(""a	b""),
+}
+
+MetaData Pad {
+    char[00] leftPad,
+    u8 rootA `
+        `,
+    //
+    // " ++ [128512]%N ++ runes_of_ascii " emoji
+    int32 a1 `say ""hi""`,
+    Z9_ float,//x
+    i32 Pad,
+}")).
+Eval vm_compute in ("<<<M1238>>>" ++ check (runes_of_ascii "// top
+options
+    // c0
+{
+    // c1
+zchar
+    // c2
+=
+    // c3
+true
+    // c4
+;
+    // c5
+Pad
+    // c6
 =
     // c7
-u32 ; FixedStringPadFromLeft
+char[
+    // c8
+00
+    // c9
+]
     // c10
-= // c11
-false // c12
-;
+a1
+    // c11
+=
+    // c12
+uint32
     // c13
-} // c14a
-  // c14b
-packet // c15
-Party // c16
-{ // c17a
-  // c17b
-zchar[
+BodyLength
+    // c14
+=
+    // c15
+true
+    // c16
+;
+    // c17
+}
     // c18
-7
+root
     // c19
-] // c20a
-  // c20b
-OrderId // c21a
-  // c21b
-,
+packet
+    // c20
+T
+    // c21
+{
     // c22
-InTail6 // c23a
-  // c23b
-{ // c24
-repeat
+@lengthOf(
+    // c23
+repeatCount
+    // c24
+)
     // c25
-char[ // c26
+@tag(
+    // c26
 1
     // c27
-] msgKind , char[ 3 // c32
-]
-    // c33
-Tail // c34a
-  // c34b
-, // c35a
-  // c35b
-char[ // c36a
-  // c36b
-3 // c37
-]
-    // c38
-Flags // c39
-, // c40
-i16 // c41a
-  // c41b
-tag7 , // c43a
-  // c43b
-} , // c45
-@rightPad ( // c47a
-  // c47b
-'0' )
-    // c49
-char[ // c50a
-  // c50b
-12
-    // c51
-]
-    // c52
-clOrdID // c53a
-  // c53b
-, // c54
-}
-    // c55
-packet
-    // c56
-Quote // c57
-{
-    // c58
-@leftPad // c59a
-  // c59b
-( '0' // c61
-) // c62
-char[ // c63
-11 // c64
-] // c65
-price // c66
-, // c67
-repeat // c68a
-  // c68b
-InCount7
-    // c69
-{
-    // c70
-i32 x // c72
-, // c73
-Party ,
-    // c75
-u8 // c76a
-  // c76b
-Ref // c77
-, u8 tag7 // c80
-, // c81a
-  // c81b
-} // c82
-, // c83a
-  // c83b
-char[] // c84a
-  // c84b
-seqNo // c85
-, Party
-    // c87
-, } // c89a
-  // c89b
-packet // c90a
-  // c90b
-Logon { // c92
-@rightPad // c93
-( // c94a
-  // c94b
-'\x00' ) // c96
-char[ 5 // c98a
-  // c98b
-] Note // c100
-, // c101a
-  // c101b
-i16 sym , // c104
-InPrice72 // c105
-{ char[ // c107a
-  // c107b
-9
-    // c108
-] // c109
-Ref // c110
-, zchar[ // c112
-1
-    // c113
-]
-    // c114
-venue // c115
-, // c116a
-  // c116b
-} , // c118a
-  // c118b
-char[] // c119a
-  // c119b
-clOrdID , } root // c123a
-  // c123b
-packet
-    // c124
-Reject
-    // c125
-{
-    // c126
-repeat // c127
-Logon , // c129
-@leftPad // c130a
-  // c130b
-( ' ' ) char[ // c134a
-  // c134b
-4 ] // c136a
-  // c136b
-seqNo // c137a
-  // c137b
-, // c138
-zchar[
-    // c139
-5 ] // c141a
-  // c141b
-Acct ,
-    // c143
-u32 // c144
-x
-    // c145
-, // c146a
-  // c146b
-u16 // c147
-f1 // c148
-@lengthOf( Body // c150a
-  // c150b
 )
-    // c151
-, // c152
-match // c153
-x // c154a
-  // c154b
-as
-    // c155
-Body // c156
-{ // c157
-[ // c158a
-  // c158b
-169
-    // c159
-, // c160a
-  // c160b
-74 // c161
-]
-    // c162
-: // c163a
-  // c163b
-Quote // c164a
-  // c164b
-, // c165a
-  // c165b
-45 // c166
-: Party
-    // c168
-, 7 // c170
-:
-    // c171
-Logon
-    // c172
-, } // c174
-,
-    // c175
-} ")).
-Eval vm_compute in ("<<<M213>>>" ++ check (runes_of_ascii "
-packet body
-{@tag(
-    3 ) i16 options1 ,  repeat string
-body ,
-@calculatedFrom( // trailing space 
-""a\""b""
-) x_y_z @calculatedFrom(
-""a\\"") `it's` , match o as BodyLength
-{ 00
-:
-pack,
-1 : u	,
-[255,255,""// no comment"" ]
-    : Packet	[ 65535 ] :  i64_ , }
-// @lengthOf(
-//
-,// a // b
-@calculatedFrom( // c
-""" ++ [233]%N ++ runes_of_ascii "t" ++ [233]%N ++ runes_of_ascii """ ) string// `tick` ""quote"" 'q'
-len `tab	here`,
-    @tag( 0123456789
-) repeat
-    //	t
-    matchKey A `a\`,
-    i8i8 Packet , stringy @calculatedFrom( ""x y"" ) ,f32a As
-`crlf
-line` ,u128{ repeat
-    int  {
-    repeat
-    zchar[255 ] a1`{ , }`
-,
-// a // b
-// a // b
-match calculatedFrom as body//	t
-{
-    0 // " ++ [27880; 37322]%N ++ runes_of_ascii "
-:body	42
-    // c
-    :tag // @lengthOf(
-, ""1""	:packetx , ""it's"":  roots,}, i32 u @calculatedFrom(// " ++ [128512]%N ++ runes_of_ascii " emoji
-""a\\"" ) ,
-}	,
-string_`crlf
-line`, _x  , repeat lengthOf crc ,	}, // " ++ [27880; 37322]%N ++ runes_of_ascii "
-}
-MetaData rootA {
-uint8	tag , string	Z9_ `u8 x,` ,
-    f64 float ,
-    Logon
-falsey`a\`
-, } packet len{  char[] u	`// not a comment`, char[] Header
-`// not a comment`	, string charz
-// a // b
-/// triple
-`tab	here` ,
-    //
-    @leftPad
-    // packet A { u8 x, }
-    ( )@lengthOf(
-a1)
-// " ++ [128512]%N ++ runes_of_ascii " emoji
-//x
-len
-crc, @leftPad ( ' ' )Packet @calculatedFrom(""" ++ [128512]%N ++ runes_of_ascii """ ) , repeat uint8 a1
-, match
-    T as As { ""packet"": Logon , [	""" ++ [128512]%N ++ runes_of_ascii """
-    , 0 ]
-: i64_ , [ ""packet"" , 7
-    ]
-    : string_ ,
-} , repeat//
-zchar[
-007 ] zchar `{ , }` ,
-    }
-")).
-Eval vm_compute in ("<<<M1937>>>" ++ check (runes_of_ascii "// top
-options	// c0
-
-{	LittleEndian 
-      // c2
-      =	// c3a
-    // c3b
-	false // c4
-
-	;	// c5a
-// c5b
-	StringPrefixLenType // c6
-= 	 // c7a
-	// c7b
-  u8 
-;
-    ArrayPrefixLenType
-    =
-// c11
-	u64 	 // c12
-
-; 
-        // c13
-  FixedStringPadFromLeft 
-        // c14
-  =false
-
-    ; 	 // c17a
-  // c17b
-    FixedStringPadChar
-
-=// c19a
-    // c19b
-	' ';
-// c21
-
-}  // c22
-  packet Reject 	 // c24a
-  // c24b
-{
-repeat  // c26
-	char[ // c27a
-// c27b
-	  4  // c28
-    ] 
-    // c29
-seqNo,// c31
-	string // c32a
-  // c32b
-	Px	// c33a
-  // c33b
-		, 	 // c34
-    }
-
-    root
-    // c36
-  packet// c37
-Trade 
-    // c38
-	{	// c39a
-
-// c39b
-	@rightPad // c40
-(
-
-    // c41
-	'0'
-	)// c43a
-// c43b
-      char[ // c44
-	  2// c45
-  ]
-
-    msgKind
-    ,// c48
-    	repeat 
-      // c49
-  f64  // c50a
-// c50b
-  price 
-
-    // c51
-	, 	 // c52
-	InAcct79  // c53
-  {
-    // c54
-	repeat 
-    // c55
-	Reject
-, 	 // c57a
-	  // c57b
-zchar[ // c58
-	  7 // c59a
-
-// c59b
-	]  // c60a
-	// c60b
-  OrderId// c61
-, 
-	    // c62
-  }	// c63a
-  // c63b
-    ,
-    Reject
-
-    , } // c67a
-    // c67b")).
-Eval vm_compute in ("<<<M316>>>" ++ check (runes_of_ascii "// `tick` ""quote"" 'q'
-packet crc { @tag(0 ) //x
-chars , i8i8
-@lengthOf( packetx ), repeat
-f32a
-    {
-match packetx as a1{
-    ""x y""
-:
-//
-// `tick` ""quote"" 'q'
-Packet, } ,}
-, @leftPad(
-'\x00' )
-uint8 int ,
-match float as a1 {
-    // `tick` ""quote"" 'q'
-    [4294967296
-    ]
-:// " ++ [27880; 37322]%N ++ runes_of_ascii "
-Packet
-    , } //
-, repeat zchar[ 007 ] zchar`tab	here`
-    , repeat
-// " ++ [27880; 37322]%N ++ runes_of_ascii "
-// a // b
-x
-    , }	packet
-string_
-    // c
-    { char[
-0123456789] a1
-, @calculatedFrom( ""a\\"" ) @tag( 42)
-@leftPad
-('\x00' ) options1
-    @calculatedFrom( """ ++ [28040; 24687]%N ++ runes_of_ascii """
-)`it's`	, repeat
-rootA// packet A { u8 x, }
-{
-    //
-    match Logon as Packet { [10 ,	255 , 0,
-007 ,
-""CRC32""
-, ""abc"" ] : len , """ ++ [28040; 24687]%N ++ runes_of_ascii """:	a1	, } , match leftPad as Header { 007:  As
-, 255: repeatCount , /// triple
-"""" // packet A { u8 x, }
-: matchKey //
-, [ 255 ,
-    3,	""abc"" , """", ""\n"" , 1
-, """"// " ++ [27880; 37322]%N ++ runes_of_ascii "
-,
-42//x
-] : pack ,
-}
-, }
-// @lengthOf(
-// `tick` ""quote"" 'q'
-, int
-{int64 chars , }// @lengthOf(
-, } 	 ")).
-Eval vm_compute in ("<<<M237>>>" ++ check (runes_of_ascii "root
-    packet
-    asx { // `tick` ""quote"" 'q'
-f32a	,
+    // c28
 @calculatedFrom(
-""abc"") zchar[ 65535 ]	metadata `
-` , @calculatedFrom(// " ++ [128512]%N ++ runes_of_ascii " emoji
-""CRC32"" // `tick` ""quote"" 'q'
-) Header `doc`
-    // @lengthOf(
-    , match
-f32a as
-msg_type
-// @lengthOf(
-//x
-{ [ ""\n"" ] /// triple
-:
-charz// @lengthOf(
-0123456789 :
-pack
-    // `tick` ""quote"" 'q'
-    ,//x
-[ ""packet"" , """",
-    // @lengthOf(
-    ""`tick`"" ,
-    ""CRC32"" , ""\n"" ,
-// `tick` ""quote"" 'q'
-// trailing space 
-""it's""//	t
+    // c29
+""a	b""
+    // c30
+)
+    // c31
+string
+    // c32
+stringy
+    // c33
+@calculatedFrom(
+    // c34
+""\n""
+    // c35
+)
+    // c36
+`u8 x,`
+    // c37
 ,
-""it's"", //
-4294967296 ]
-:
-charz
-42
-    : leftPad , [
-255 ,	7 , ""packet"" , // trailing space 
-""{,}""
-    , ""\" ++ [233]%N ++ runes_of_ascii """ ,""1""
-    ,	""1""  ] : msg_type
-,
-    [ """ ++ [128512]%N ++ runes_of_ascii """
-    ]:  i64_ } ,  }packet body { } root packet i64_
-    { uint16  Header @calculatedFrom(
-""" ++ [233]%N ++ runes_of_ascii "t" ++ [233]%N ++ runes_of_ascii """ )
-    ``
-    ,float64 string_@calculatedFrom( // a // b
-""`tick`"") , repeat zchar[ // @lengthOf(
-1] packetx`it's` ,
-} //	t")).
-Eval vm_compute in ("<<<M1356>>>" ++ check (runes_of_ascii "options {
-    StringPrefixLenType = u16;
-    ArrayPrefixLenType = u32;
-    FixedStringPadFromLeft = true;
-    FixedStringPadChar = '0';
+    // c38
 }
-packet Cancel {
-}
-packet Party {
-}
-packet Logon {
-}
-packet Ack {
-}
-packet Logout {
-    repeat InSym87 {
-        InClordid94 {
-            string clOrdID,
-        },
-        string Px,
-        i16 Qty,
-        repeat InCount71 {
-            repeat Cancel,
-            uint16 Tail,
-            char[2] x,
-            repeat string Ref,
-        },
-        Cancel,
-    },
-}
-root packet Order {
-    repeat string tag7,
-    @leftPad(' ') char[3] Px,
-    u8 Qty,
-    match Qty as Body {
-        [28, 62] : Logon,
-        148 : Ack,
-        88 : Party,
-        184 : Cancel,
-    },
-    u16 Note @calculatedFrom(""CR\
-C32""),
-}
+    // c39
 ")).
-Eval vm_compute in ("<<<M1315>>>" ++ check (runes_of_ascii "// top
-packet // c0
-MDSnapshotZZ // c1a
+Eval vm_compute in ("<<<M1312>>>" ++ check (runes_of_ascii "// top
+options // c0a
+  // c0b
+{ // c1a
   // c1b
-{ // c2
-u8 a // c4
-, // c5a
-  // c5b
-} // c6
-packet OrderACK // c8
+FixedStringPadChar = // c3
+'0' ; } packet
+    // c7
+Q // c8
 { // c9a
   // c9b
-u16 b // c11
-,
-    // c12
-} // c13a
-  // c13b
-packet
-    // c14
-HTTPServerInfo
-    // c15
-{ // c16
-string s
-    // c18
-,
-    // c19
-}
-    // c20
-root // c21a
-  // c21b
-packet // c22
-FIXMsg // c23
-{ u8 // c25a
-  // c25b
-KType // c26a
-  // c26b
-, // c27a
-  // c27b
-MDSnapshotZZ
-    // c28
-, // c29a
-  // c29b
-repeat
-    // c30
-OrderACK , // c32a
-  // c32b
-match // c33
-KType as // c35a
-  // c35b
-Body // c36
-{
-    // c37
-1 :
-    // c39
-HTTPServerInfo , 2 // c42
-:
-    // c43
-OrderACK
-    // c44
-, } // c46a
-  // c46b
-,
-    // c47
-} // c48a
-  // c48b
-")).
-Eval vm_compute in ("<<<M366>>>" ++ check (runes_of_ascii "packet
-// @lengthOf(
-//	t
-f32a { char[] Header`" ++ [233]%N ++ runes_of_ascii "` ,  @tag( 00
-) zchar[ 255  ] int
-    , @lengthOf(	trueish)
-x @calculatedFrom( """ ++ [128512]%N ++ runes_of_ascii """
-    )`say ""hi""` , @leftPad
-    (	'\x00'
-) @lengthOf( //	t
-u128 )//	t
-repeat BodyLength ,
-falsey @lengthOf( uint8x ), //
-@lengthOf( rootA) repeat uint8 T  `a\` , repeat  string
-lengthOf
-`it's` , @leftPad(
-    '\x00' )
-zchar[ 42
-// packet A { u8 x, }
-// a // b
-] u`say ""hi""` ,// a // b
-repeat packetx
-// a // b
-// packet A { u8 x, }
-{
-Pad  f32a
-,// trailing space 
-i8i8 msg_type `say ""hi""` , i64_ repeatCount , char[]chars , } ,}MetaData _x
-{  x matchKey `" ++ [28040; 24687; 31867; 22411]%N ++ runes_of_ascii "`, }")).
-Eval vm_compute in ("<<<M1121>>>" ++ check (runes_of_ascii "// top
-root // c0
-packet // c1
-_x
-    // c2
-{ match
-    // c4
-Foo // c5
-as // c6a
-  // c6b
-Z9_ {
-    // c8
-""a	b"" // c9a
-  // c9b
-: // c10
-Pad // c11
-,
-    // c12
-} , // c14
-repeat // c15a
-  // c15b
-x `line1
-line2`
-    // c17
-, // c18
-@rightPad // c19a
-  // c19b
-(
-    // c20
-' ' // c21
-) // c22
-@calculatedFrom( ""a\\""
+zchar[ // c10a
+  // c10b
+4 // c11
+] // c12
+z , // c14
+@rightPad ( // c16
+'\x00' ) // c18a
+  // c18b
+char[ 3 // c20a
+  // c20b
+]
+    // c21
+n ,
+    // c23
+char[
     // c24
-) // c25a
-  // c25b
-metadata MetaDataX
-    // c27
-, @tag(
-    // c29
-0 ) // c31
-Logon int
-    // c33
-``
-    // c34
-,
-    // c35
-} // c36
-options // c37
-{
-    // c38
-T // c39
-= // c40a
-  // c40b
-'\x00' } // c42a
-  // c42b
-")).
-Eval vm_compute in ("<<<M1346>>>" ++ check (runes_of_ascii "options {
-    ArrayPrefixLenType = u64;
-    FixedStringPadFromLeft = true;
-    FixedStringPadChar = '0';
-}
-packet Quote {
-}
-packet Ack {
-    repeat InNote66 {
-        u8 pad0,
-    },
-}
-packet Reject {
-}
-root packet Order {
-    Quote,
-    repeat Reject,
-    string venue,
-    string seqNo,
-    uint32 Ref,
-    u16 lastPx,
-    u32 clOrdID @lengthOf(Body),
-    match lastPx as Body {
-        190 : Reject,
-        186 : Quote,
-        22 : Ack,
-    },
-    u16 Flags @calculatedFrom(""CRC32""),
-}
-")).
-Eval vm_compute in ("<<<M1827>>>" ++ check (runes_of_ascii "// packet A { u8 x, }
-MetaData
-
-roots  { char[ 00
-
-    ] lengthOf
-`` ,As 
-stringy
-	,x  calculatedFrom	,	}
-packet i8i8 {
-	crc
-`crlf
-line`
-    ,
-
-@rightPad	// a // b
-	( )
-
-zchar[
-    42
-    ]falsey // trailing space 
-  , 
-  /// triple
-    @tag(
-    42
-)  u32
-
-    leftPad
-    , @tag( 42)a1@lengthOf( Z9_
-    )
-    ,
-match leftPad
-
-    as 
-crc{  [
-
-""a\""b""
-,
-1
-,	255
-
-]
-	:
-trueish
-,
-    3
-
-    : 
-float
-
-    ,
-0:
-
-lengthOf 
-, } , }
-")).
-Eval vm_compute in ("<<<M1443>>>" ++ check (runes_of_ascii "  packet metadata{//	t
-		float64
-body 
-@lengthOf(
-
-    calculatedFrom)
-	,  // a // b
-@tag(
-42
-) rootA , x_y_z
-	u8x 
-`// not a comment` ,
-    @lengthOf( 
-Pad
-    ) match	// " ++ [27880; 37322]%N ++ runes_of_ascii "
-  packetx
-as	leftPad{ 
-
-    //
-  65535
-:
-tag
-	,
-""" ++ [128512]%N ++ runes_of_ascii """
-:	_x
-	},
-x_y_z
-
-metadata  ,
-
-@tag( 7
-    ) int64
-zchar
-
-    @lengthOf(
-    repeatCount
-	) `" ++ [233]%N ++ runes_of_ascii "`
-	,
-	@tag(0123456789
-
-) repeat
-	float 
-chars
-
-, 
-f32
-	MetaDataX,} ")).
-Eval vm_compute in ("<<<M118>>>" ++ check (runes_of_ascii "packet As{@leftPad ( )
-    char[ 0	]
-Logon, char[	0
-]
-Z9_@calculatedFrom(	""abc""
-    // c
-    ) ,  @tag( 4294967296 )
-    i64 matchKey @calculatedFrom(
-    ""// no comment""//
-)`two words` ,i16 A
-, }// " ++ [27880; 37322]%N ++ runes_of_ascii "
-packet T { zchar[
-3 ] tag// packet A { u8 x, }
-@lengthOf(
-    chars) , } packet// " ++ [128512]%N ++ runes_of_ascii " emoji
-BodyLength  {calculatedFrom @lengthOf( body )
-`
-`	, } // a // b")).
-Eval vm_compute in ("<<<M12>>>" ++ check (runes_of_ascii "options {falsey =int64; u8x = uint32	uint8x =// " ++ [128512]%N ++ runes_of_ascii " emoji
-zchar[ 1
-]
-// @lengthOf(
-/// triple
-; leftPad =
-    ""a	b"";
-    calculatedFrom
-=
-    false ;	}
-MetaData Packet
-{  zchar[
-7]  As ,} root packet	pack {
-@leftPad ( )	@tag(// trailing space 
-7 ) zchar[ 3 ] u	@lengthOf(
-// @lengthOf(
-// trailing space 
-x ),
-}
-")).
-Eval vm_compute in ("<<<M130>>>" ++ check (runes_of_ascii "packet zchar { @lengthOf( a1
-// " ++ [128512]%N ++ runes_of_ascii " emoji
-//	t
-) i64_ @lengthOf( Header )
-`" ++ [28040; 24687; 31867; 22411]%N ++ runes_of_ascii "`, charz`" ++ [233]%N ++ runes_of_ascii "` , char[007] i64_ , tag  { u16  matchKey // " ++ [27880; 37322]%N ++ runes_of_ascii "
-,match Pad as lengthOf { [""CRC32"" ,	""abc""
-] : Packet
-,	}
-, }
-    , } MetaData body {char[
-    10 ]u128
-    `doc`
-    ,
-/// triple
-//x
-} //x")).
-Eval vm_compute in ("<<<M1625>>>" ++ check (runes_of_ascii "root packet i8i8 {
-    @tag(4294967296)
-    // packet A { u8 x, }
-    Header calculatedFrom `
-        `,
-    @tag(4294967296)
-    @rightPad(' ')
-    @lengthOf(float)
-    options1 zchar `" ++ [233]%N ++ runes_of_ascii "`,
-}
-
-root packet x {
-    repeat zchar[10] x `u8 x,`,
-}")).
-Eval vm_compute in ("<<<M21>>>" ++ check (runes_of_ascii "packet  Logon //	t
-{pack	_x
-    ,
-Z9_ i8i8  `" ++ [28040; 24687; 31867; 22411]%N ++ runes_of_ascii "`	, } options
-    { tag	= 4294967296 ; As = string
-    ; rootA = true ; }root packet f32a { //x
-@leftPad
-// " ++ [27880; 37322]%N ++ runes_of_ascii "
-// c
-(' ') repeat _x`" ++ [233]%N ++ runes_of_ascii "`	, @rightPad ( )i8i8 len,}
-
-")).
-Eval vm_compute in ("<<<M265>>>" ++ check (runes_of_ascii "MetaData
-    zchar
-{
-uint8 _x
-// `tick` ""quote"" 'q'
-//
-`doc` ,
-    float64 metadata`doc` // " ++ [128512]%N ++ runes_of_ascii " emoji
-, zchar[ 42
-    ]
-// packet A { u8 x, }
-// c
-x_y_z , zchar[ 3 ]Logon `{ , }`
-, }
-
-")).
-Eval vm_compute in ("<<<M1415>>>" ++ check (runes_of_ascii "packet A
-
-    {
-match
-
-    k
-as
-
-n
-
-    {
-
-    [1
-	,
-	22
-,
-    ""c c""
-    , 4  , 
 5
+    // c25
+] // c26
+d // c27
+, } // c29a
+  // c29b
+root
+    // c30
+packet R
+    // c32
+{ // c33
+Q , // c35a
+  // c35b
+zchar[ 8 // c37
+] // c38
+top , // c40a
+  // c40b
+repeat
+    // c41
+zchar[
+    // c42
+2
+    // c43
+] // c44a
+  // c44b
+zs
+    // c45
+, // c46a
+  // c46b
+} // c47
+")).
+Eval vm_compute in ("<<<M1324>>>" ++ check (runes_of_ascii "// top
+root
+    // c0
+packet Frame
+    // c2
+{ u8
+    // c4
+K
+    // c5
 ,
-
-    ""f""
-    ,
-7
-
-    ,  8
-
+    // c6
+Logon
+    // c7
+first
+    // c8
+, // c9
+match // c10
+K // c11a
+  // c11b
+as
+    // c12
+Body // c13a
+  // c13b
+{
+    // c14
+1 : Logon
+    // c17
+, // c18a
+  // c18b
+2
+    // c19
+: // c20a
+  // c20b
+Logout ,
+    // c22
+}
+    // c23
+, // c24a
+  // c24b
+} // c25a
+  // c25b
+packet Logon { string // c29a
+  // c29b
+user // c30
+, // c31
+} // c32
+packet
+    // c33
+Logout
+    // c34
+{ u16 reason , // c38a
+  // c38b
+} // c39a
+  // c39b
+")).
+Eval vm_compute in ("<<<M301>>>" ++ check (runes_of_ascii "root packet A { repeat uint64 matchKey
+    , char[]
+    Packet , char[
+    007 ] calculatedFrom , }
+options{ Header =
+007 ;
+float =
+    true} packet chars { repeat
+chars ,@rightPad
+    ( '0' ) chars f32a
+    `line1
+line2`
+, int16
+u8x , @tag( 4294967296 ) @rightPad
+( )
+u64 packetx@calculatedFrom(""it's"" )
 ,
-
-""i""
-,10  ]  :
-
-B
-, 2	:
-C } ,
-	}")).
-Eval vm_compute in ("<<<M195>>>" ++ check (runes_of_ascii "MetaData msg_type {} root packet
-A{ repeat i32 leftPad
-`it's`
+@calculatedFrom( ""\n"" ) o@calculatedFrom(""a\""b"" ), Logon	@lengthOf( BodyLength
+    /// triple
+    )
+// a // b
+// packet A { u8 x, }
+,}options {
+    }
+")).
+Eval vm_compute in ("<<<M1193>>>" ++ check (runes_of_ascii "// top
+MetaData
+    // c0
+uint8x // c1
+{ char[]
+    // c3
+f32a // c4a
+  // c4b
+`// not a comment`
+    // c5
+, // c6a
+  // c6b
+float32 // c7
+roots
+    // c8
+, // c9
+char[ // c10a
+  // c10b
+7 // c11
+] // c12
+u8x // c13
+, // c14a
+  // c14b
+zchar[
+    // c15
+10
+    // c16
+] // c17
+f32a // c18
+, // c19a
+  // c19b
+u64
+    // c20
+pack // c21a
+  // c21b
+, u16
+    // c23
+pack // c24a
+  // c24b
 ,
+    // c25
+}
+    // c26
+")).
+Eval vm_compute in ("<<<M1139>>>" ++ check (runes_of_ascii "// top
+MetaData
+    // c0
+leftPad
+    // c1
+{
+    // c2
+chars
+    // c3
+MetaDataX
+    // c4
+,
+    // c5
+}
+    // c6
+packet
+    // c7
+repeatCount
+    // c8
+{
+    // c9
+char[
+    // c10
+255
+    // c11
+]
+    // c12
+uint8x
+    // c13
+`" ++ [233]%N ++ runes_of_ascii "`
+    // c14
+,
+    // c15
+}
+    // c16
+MetaData
+    // c17
+pack
+    // c18
+{
+    // c19
+As
+    // c20
+Foo
+    // c21
+,
+    // c22
+}
+    // c23
+")).
+Eval vm_compute in ("<<<M248>>>" ++ check (runes_of_ascii "packet a1
+    { char[]	charz @calculatedFrom(
     //x
-    }  root
-    packet a1
-    {char[
-    // c
-    255 ]
-    falsey // @lengthOf(
-, }")).
-Eval vm_compute in ("<<<M150>>>" ++ check (runes_of_ascii "packet
-    //	t
-    Logon {
-metadata
-@calculatedFrom( ""a\\"" ) , @tag( 42 ) // " ++ [128512]%N ++ runes_of_ascii " emoji
-@tag(	65535 )
-repeat u16 o `line1
+    """ ++ [28040; 24687]%N ++ runes_of_ascii """)
+,
+    uint8x`crlf
+line`
+    , uint64 T  `line1
 line2` ,
-} packet float { }
+    @leftPad (
+'0')
+// a // b
+/// triple
+@calculatedFrom( ""abc"" )
+@tag( 3 ) match
+int // a // b
+as len
+{ 0	:  chars, [ 10, ""a\\"",
+1 ,0 ,10 , 0
+    ] : body, 007 :
+    // a // b
+    rootA // a // b
+, } , falsey options1 , }
+")).
+Eval vm_compute in ("<<<M1661>>>" ++ check (runes_of_ascii "packet float {
+    // c2
+    @rightPad()
+    // c5a
+    // c5b
+    rootA @lengthOf(trueish),
+    // c10
+    stringy @lengthOf(matchKey),// c15a
+    // c15b
+    char[4294967296] pack @lengthOf(uint8x),
+    // c23
+}// c24
 
+root packet trueish {
+    // c28
+    repeat uint64 u128 `line1
+    line2`,
+    // c33
+}
+// c34")).
+Eval vm_compute in ("<<<M215>>>" ++ check (runes_of_ascii "root	packet
+    i8i8 { @tag( // c
+4294967296 )
+    // packet A { u8 x, }
+    Header  calculatedFrom `
+`
+, @tag(4294967296 )
+@rightPad ( ' '
+    )
+@lengthOf( float )
+    options1 zchar `" ++ [233]%N ++ runes_of_ascii "`
+//x
+/// triple
+,}	root packet
+    // " ++ [128512]%N ++ runes_of_ascii " emoji
+    x {repeat
+zchar[  10 ]	x`u8 x,`,
+    }")).
+Eval vm_compute in ("<<<M1698>>>" ++ check (runes_of_ascii "
+root packet string_
+    { @leftPad  (
+    ' '
+
+    )
+    chars
+{repeat  zchar[ 0 ]
+tag
+    ,
+	string
+falsey
+    ,	// " ++ [128512]%N ++ runes_of_ascii " emoji
+  repeat
+
+char[
+007
+]  body `two words`
+    , } ,
+	@calculatedFrom(
+""// no comment""  ) Foo
+    T ,	// " ++ [128512]%N ++ runes_of_ascii " emoji
+    }")).
+Eval vm_compute in ("<<<M1795>>>" ++ check (runes_of_ascii "packet trueish {
+    @leftPad('0')
+    @tag(3)
+    @tag(7)
+    repeat matchKey {
+        u32 u,
+    },
+    @lengthOf(chars)
+    @calculatedFrom(""a	b"")
+    @tag(0123456789)
+    zchar[255] Pad,
+}
+
+root packet u {
+}")).
+Eval vm_compute in ("<<<M1323>>>" ++ check (runes_of_ascii "root packet Frame {
+    u8 K,
+    Logon first,
+    match K as Body {
+        1 : Logon,
+        2 : Logout,
+    },
+}
+packet Logon {
+    string user,
+}
+packet Logout {
+    u16 reason,
+}
 ")).
-Eval vm_compute in ("<<<M547>>>" ++ check (runes_of_ascii "%packet uint8x
-{ match pack
+Eval vm_compute in ("<<<M1818>>>" ++ check (runes_of_ascii "root packet _x {
+    uint32 trueish @calculatedFrom(""1"") `crlf
+        line`,
+}
+
+//
+packet Header {
+    repeat u64 stringy `// not a comment`,
+    float32 msg_type,
+}")).
+Eval vm_compute in ("<<<M250>>>" ++ check (runes_of_ascii "MetaData // a // b
+o {string Foo
+    , }
+MetaData  msg_type { Header len `" ++ [28040; 24687; 31867; 22411]%N ++ runes_of_ascii "`
+,
+    }
+options
+{ tag
+= '0' ;
+    o=
+""CRC32"" ; Logon = ""`tick`"" ;// a // b
+}")).
+Eval vm_compute in ("<<<M543>>>" ++ check (runes_of_ascii "packet uint8x
+{ mat'1'ch pack
     as msg_type	{
     0123456789 :	float
 }
@@ -1017,7 +959,7 @@ a1
     { } options {packetx
     = '\x00'	; u128= ""a	b""  ; }
 ")).
-Eval vm_compute in ("<<<M502>>>" ++ check (runes_of_ascii "packet uint8x
+Eval vm_compute in ("<<<M538>>>" ++ check (runes_of_ascii "packet uint8x
 { match pack
     as msg_type	{
     0123456789 :	float
@@ -1026,252 +968,261 @@ Eval vm_compute in ("<<<M502>>>" ++ check (runes_of_ascii "packet uint8x
 } packet //	t
 a1
     { } options {packetx
-    = ;	'\x00' u128= ""a	b""  ; }
+    = '\x00'	%; u128= ""a	b""  ; }
 ")).
-Eval vm_compute in ("<<<M433>>>" ++ check (runes_of_ascii "packet uint8x
+Eval vm_compute in ("<<<M487>>>" ++ check (runes_of_ascii "packet uint8x
 { match pack
     as msg_type	{
-    ""`tick`"" :	float
+    0123456789 :	float
 }
 ,
 } packet //	t
 a1
-    { } options {packetx
+    { } options packetx{
     = '\x00'	; u128= ""a	b""  ; }
 ")).
-Eval vm_compute in ("<<<M678>>>" ++ check (runes_of_ascii "// @lengthOf(
+Eval vm_compute in ("<<<M1748>>>" ++ check (runes_of_ascii "packet A {
+    match k as n {
+        [
+            ""a"", ""bb"", ""c c"", ""d"", ""e"",
+            ""f"", ""g"", ""h"", ""i""
+        ] : B,
+        2 : C,
+    },
+}")).
+Eval vm_compute in ("<<<M665>>>" ++ check (runes_of_ascii "// @lengthOf(
 packet i8i8 { u128 o , }
 options { MetaDataX = true;
     BodyLength =""packet"" x_y_z= 007
 crc //x
-= ""abc"" ;
-    < msg_type =
+= ""abc"" ; ;
+    msg_type =
 i16 }")).
-Eval vm_compute in ("<<<M681>>>" ++ check (runes_of_ascii "// @lengthOf(
+Eval vm_compute in ("<<<M675>>>" ++ check (runes_of_ascii "// @lengthOf(
 packet i8i8 { u128 o , }
-options { MetaDataX = true;
-    BodyLength =""packet"" x_y_z= 007
-crc //x
-= ""abc"" ;
-    msg_type i16
-= }")).
-Eval vm_compute in ("<<<M706>>>" ++ check (runes_of_ascii "// @lengthOf(
-packet i8i8 { u128 o , }
-options { MetaDataX = ;
+options { MetaDataX true =;
     BodyLength =""packet"" x_y_z= 007
 crc //x
 = ""abc"" ;
     msg_type =
 i16 }")).
-Eval vm_compute in ("<<<M37>>>" ++ check (runes_of_ascii "//
-root /// triple
-packet // trailing space 
-pack {
-@leftPad(
-    ' ' )
-    repeat trueish zchar ,	} root
-    packet // " ++ [27880; 37322]%N ++ runes_of_ascii "
-Header { }")).
-Eval vm_compute in ("<<<M1781>>>" ++ check (runes_of_ascii "packet A {
-    u16 len @lengthOf(body) `a
-    
-    b`,
-    u32 crc @calculatedFrom(""CRC32"") `a
-    
-    b`,
-    string body,
-}")).
-Eval vm_compute in ("<<<M1190>>>" ++ check (runes_of_ascii "MetaData leftPad { chars MetaDataX , } packet repeatCount { char[ 255 ] uint8x `" ++ [233]%N ++ runes_of_ascii "` , } MetaData pack { As Foo , }
-// c
+Eval vm_compute in ("<<<M98>>>" ++ check (runes_of_ascii "
+packet stringy {
+}
+MetaData u8x	{ zchar[ 65535
+    // a // b
+    ] Pad ,stringy string_
+`u8 x,` ,	u8 lengthOf`
+` , char[ 255
+] pack , } 	 ")).
+Eval vm_compute in ("<<<M1899>>>" ++ check (runes_of_ascii "
+packet
+A
+{match
+	k
+
+    as
+	n	{[ ""a""
+,
+	""bb""  ,""c c""	, ""d""
+, ""e""  , ""f""
+    ,	""g""
+    , ""h"" , ""i""	,
+""j"" ] 
+:B, 
+2 :
+	C
+	} ,}
 ")).
-Eval vm_compute in ("<<<M1170>>>" ++ check (runes_of_ascii "MetaData leftPad { chars MetaDataX , } packet repeatCount { char[ 255 ] uint8x
-// c
-`" ++ [233]%N ++ runes_of_ascii "` , } MetaData pack { As Foo , }")).
-Eval vm_compute in ("<<<M907>>>" ++ check (runes_of_ascii "packet A {
-  match k as n {
-    [""a"", ""bb"", ""c c"", ""d"", ""e"", ""f"", ""g"", ""h"", ""i"", ""j"", ""k"", ""l""] : B
-    2 : C
-  },
-}")).
-Eval vm_compute in ("<<<M1442>>>" ++ check (runes_of_ascii "packet 
-A {Inner
-	{ 
-match
+Eval vm_compute in ("<<<M1900>>>" ++ check (runes_of_ascii "
+packet
+A
 
-k  as
-n  {	[ 1
+    {  match k
+as
 
-    , 22
-	,
-    007]	:
+n  {
 
-    B
+[""a""
 
     ,
 
-    },
+    ""bb"",
 
-}  ,  }
+    ""c c""
+	,""d""
+
+    ,  ""e""
+    ]: 
+B, 
+2
+	:
+	C	} 
+, }
 
 ")).
-Eval vm_compute in ("<<<M944>>>" ++ check (runes_of_ascii "packet A {
-    Inner {
-        u8 x `a
-
-b`,
-        Deep {
-            u8 y `a
-
-b`,
-        },
-    },
+Eval vm_compute in ("<<<M1948>>>" ++ check (runes_of_ascii "packet A {
+    u16 len @lengthOf(body) `
+        `,
+    u32 crc @calculatedFrom(""CRC32"") `
+        `,
+    string body,
 }")).
-Eval vm_compute in ("<<<M1304>>>" ++ check (runes_of_ascii "
-packet order_item
-
-{  u8
-a
-
-    , } root
-packet
-
-    new_order{ order_item
-	,  u8
-x ,
-
+Eval vm_compute in ("<<<M1165>>>" ++ check (runes_of_ascii "MetaData leftPad { chars MetaDataX , } packet repeatCount { char[ 255 // c
+] uint8x `" ++ [233]%N ++ runes_of_ascii "` , } MetaData pack { As Foo , }")).
+Eval vm_compute in ("<<<M499>>>" ++ check (runes_of_ascii "packet uint8x
+{ match pack
+    as msg_type	{
+    0123456789 :	float
 }
-
+,
+} packet //	t
+a1
+    { } options {packetx")).
+Eval vm_compute in ("<<<M25>>>" ++ check (runes_of_ascii "packet stringy	{
+    } // packet A { u8 x, }
+packet
+    u128
+    { u16 len@lengthOf( u128)	,
+    //x
+    }
 ")).
-Eval vm_compute in ("<<<M610>>>" ++ check (runes_of_ascii "
-packet
-    asx {match u128 as lengthOf
-{
-//	t
-// `tick` ""quote"" 'q'
-255 : x repeat
-    } ,	}")).
-Eval vm_compute in ("<<<M598>>>" ++ check (runes_of_ascii "
-packet
-    asx {match u128 as lengthOf
-{
-//	t
-// `tick` ""quote"" 'q'
-255 : : x ,
-    } ,	}")).
-Eval vm_compute in ("<<<M569>>>" ++ check (runes_of_ascii "
-packet
-    asx {u128 match as lengthOf
-{
-//	t
-// `tick` ""quote"" 'q'
-255 : x ,
-    } ,	}")).
-Eval vm_compute in ("<<<M625>>>" ++ check (runes_of_ascii "
-packet
-    asx {match u128 as lengthOf
-{
-//	t
-// `tick` ""quote"" 'q'
-255 : x ,
-    } ,")).
-Eval vm_compute in ("<<<M861>>>" ++ check (runes_of_ascii "packet A {
+Eval vm_compute in ("<<<M898>>>" ++ check (runes_of_ascii "packet A {
   match k as n {
-    [1, 22, ""c c"", 4, 5, ""f"", 7, 8] : B
+    [""a"", 22, ""c c"", 4, ""e"", 66, ""g"", 8, ""i"", 10, ""k""] : B
     2 : C
   },
 }")).
-Eval vm_compute in ("<<<M1926>>>" ++ check (runes_of_ascii "packet A {
-    match k as n {
-        [1, 22, ""c c""] : B,
-        2 : C,
-    },
-}")).
-Eval vm_compute in ("<<<M1282>>>" ++ check (runes_of_ascii "root 
+Eval vm_compute in ("<<<M583>>>" ++ check (runes_of_ascii "
 packet
+    asx {match u128 as lengthOf lengthOf
+{
+//	t
+// `tick` ""quote"" 'q'
+255 : x ,
+    } ,	}")).
+Eval vm_compute in ("<<<M1756>>>" ++ check (runes_of_ascii "
+packet
+    order_item
 
-    P  { u16	a ,
+    {u8  a  ,  }
+    root
 
-u32
+packet	new_order {
 
-Sum	@calculatedFrom( ""CRC32""
-	) ,
-
-} ")).
-Eval vm_compute in ("<<<M1453>>>" ++ check (runes_of_ascii "packet A {
-    match k as n {
-        [""a""] : B,
-        2 : C,
-    },
-}")).
-Eval vm_compute in ("<<<M864>>>" ++ check (runes_of_ascii "packet A { Inner { match k as n { [1,22,007,4,5,66,7,8] : B, }, }, }")).
-Eval vm_compute in ("<<<M918>>>" ++ check (runes_of_ascii "packet A {
-    B b `a
-b`,
-    B `a
-b`,
-    repeat B bs `a
-b`,
-}")).
-Eval vm_compute in ("<<<M1619>>>" ++ check (runes_of_ascii "MetaData M {
-    u8 x `
-        x`,
-    T t `
-        x`,
-}")).
-Eval vm_compute in ("<<<M1824>>>" ++ check (runes_of_ascii "
-
-  MetaData
-    M  { 
-u8	x	`a
-b`
-,
-    T 
-t	`a
-b`
-
-,}")).
-Eval vm_compute in ("<<<M1215>>>" ++ check (runes_of_ascii "packet body { i32 f32a `{ , }` , } options // c
-{ }")).
-Eval vm_compute in ("<<<M1393>>>" ++ check (runes_of_ascii "  root packet 
-P
-
-{char
-
-    c 
-,
-	u8 x
-,
-
-}
+order_item  ,u8
+x, }
 ")).
-Eval vm_compute in ("<<<M596>>>" ++ check (runes_of_ascii "
+Eval vm_compute in ("<<<M226>>>" ++ check (runes_of_ascii "// a // b
+packet Pad {
+    char[] // packet A { u8 x, }
+Z9_ @lengthOf( Pad
+) `{ , }` , } 	 ")).
+Eval vm_compute in ("<<<M644>>>" ++ check (runes_of_ascii "
 packet
     asx {match u128 as lengthOf
-{")).
-Eval vm_compute in ("<<<M1812>>>" ++ check (runes_of_ascii "packet A {
-    u8 x `a
-    
-    b`,
-}")).
-Eval vm_compute in ("<<<M179>>>" ++ check (runes_of_ascii "// `tick` ""quote"" 'q'
-options {}")).
-Eval vm_compute in ("<<<M1003>>>" ++ check (runes_of_ascii "packet A {
- u8 x `d" ++ [8192]%N ++ runes_of_ascii "`, // c" ++ [8192]%N ++ runes_of_ascii "
-}")).
-Eval vm_compute in ("<<<M419>>>" ++ check (runes_of_ascii "packet uint8x
-{ match pack")).
-Eval vm_compute in ("<<<M576>>>" ++ check (runes_of_ascii "
+{
+//	t
+// `tick` ""quote"" 'q'
+255 : x" ++ [178]%N ++ runes_of_ascii " ,
+    } ,	}")).
+Eval vm_compute in ("<<<M602>>>" ++ check (runes_of_ascii "
 packet
-    asx {match")).
-Eval vm_compute in ("<<<M115>>>" ++ check (runes_of_ascii "MetaData roots{ } 	 ")).
-Eval vm_compute in ("<<<M981>>>" ++ check (runes_of_ascii "packet A {
+    asx {match u128 as lengthOf
+{
+//	t
+// `tick` ""quote"" 'q'
+255 :  ,
+    } ,	}")).
+Eval vm_compute in ("<<<M865>>>" ++ check (runes_of_ascii "packet A {
+  match k as n {
+    [1, 22, 007, 4, 5, 66, 7, 8, 9] : B,
+    2 : C
+  },
+}")).
+Eval vm_compute in ("<<<M690>>>" ++ check (runes_of_ascii "// @lengthOf(
+packet i8i8 { u128 o , }
+options { MetaDataX = true;
+    BodyLength")).
+Eval vm_compute in ("<<<M819>>>" ++ check (runes_of_ascii "packet A {
+  match k as n {
+    [""a"", 22, ""c c"", 4, ""e""] : B,
+    2 : C
+  },
+}")).
+Eval vm_compute in ("<<<M1954>>>" ++ check (runes_of_ascii "options {
+    lengthOf = 3
+    trueish = true;
+    calculatedFrom = 007;
+}")).
+Eval vm_compute in ("<<<M798>>>" ++ check (runes_of_ascii "packet A {
+  match k as n {
+    [""a"", ""bb"", 007] : B
+    2 : C
+  },
+}")).
+Eval vm_compute in ("<<<M781>>>" ++ check (runes_of_ascii "packet A {
+  match k as n {
+    [""a"", ""bb""] : B
+    2 : C
+  },
+}")).
+Eval vm_compute in ("<<<M439>>>" ++ check (runes_of_ascii "packet uint8x
+{ match pack
+    as msg_type	{
+    0123456789")).
+Eval vm_compute in ("<<<M27>>>" ++ check (runes_of_ascii "options{Logon = """ ++ [28040; 24687]%N ++ runes_of_ascii """
+    ; BodyLength =
+    false
+; }
+")).
+Eval vm_compute in ("<<<M1205>>>" ++ check (runes_of_ascii "packet body { i32 // c
+f32a `{ , }` , } options { }")).
+Eval vm_compute in ("<<<M1257>>>" ++ check (runes_of_ascii "
+root	packet
+
+P	{
+	hdr {u8  a,
+}  ,u8 
+x , 
 }
-// c" ++ [12288]%N)).
-Eval vm_compute in ("<<<M1074>>>" ++ check (runes_of_ascii "MetaData M {
-}// c")).
-Eval vm_compute in ("<<<M1229>>>" ++ check (runes_of_ascii "packet x
-// c
-{ }")).
-Eval vm_compute in ("<<<M404>>>" ++ check (runes_of_ascii "packet uint8x")).
-Eval vm_compute in ("<<<M995>>>" ++ check (runes_of_ascii "// c" ++ [5760]%N)).
-Eval vm_compute in ("<<<M727>>>" ++ check (runes_of_ascii "")).
+")).
+Eval vm_compute in ("<<<M724>>>" ++ check (runes_of_ascii "// @lengthOf(
+packet i8i8 { u128 o , }
+opt")).
+Eval vm_compute in ("<<<M1729>>>" ++ check (runes_of_ascii "// top
+MetaData u {
+    // c2
+}
+// c3")).
+Eval vm_compute in ("<<<M1620>>>" ++ check (runes_of_ascii "// top
+packet x {
+    // c2
+}// c3")).
+Eval vm_compute in ("<<<M1849>>>" ++ check (runes_of_ascii "packet A {
+    u8 x `x
+    `,
+}")).
+Eval vm_compute in ("<<<M83>>>" ++ check (runes_of_ascii "
+options{ options1 =	7 ;
+}
+")).
+Eval vm_compute in ("<<<M1478>>>" ++ check (runes_of_ascii "packet 
+A {
+
+}  // c" ++ [5760]%N ++ runes_of_ascii "
+ 
+")).
+Eval vm_compute in ("<<<M1069>>>" ++ check (runes_of_ascii "// a// bpacket A {}")).
+Eval vm_compute in ("<<<M1438>>>" ++ check (runes_of_ascii "// c
+MetaData u {
+}")).
+Eval vm_compute in ("<<<M1036>>>" ++ check (runes_of_ascii "packet A {
+}
+// c" ++ [12]%N)).
+Eval vm_compute in ("<<<M1029>>>" ++ check (runes_of_ascii "packet A {
+}// c" ++ [11]%N)).
+Eval vm_compute in ("<<<M712>>>" ++ check (runes_of_ascii "// @lengthOf(
+")).
+Eval vm_compute in ("<<<M975>>>" ++ check (runes_of_ascii "// c ")).
+Eval vm_compute in ("<<<M737>>>" ++ check ([1875; 65533]%N)).
